@@ -3,6 +3,7 @@ CONSTANTS
   MaxOps = 1
   Groups = {"list", "listns", "tree", "arr", "mat", "ds"}
   Big = FALSE
+  Focus = ""
   Wide = FALSE
   ShipDsAdd = FALSE
   ShipMatPartial = TRUE
